@@ -231,11 +231,15 @@ fn oracle_k(c: &Case, ks: &[(String, GemmExecutor<u8, i8, i32>)]) -> Verdict {
         Zp::Const(v) => Some(vec![v; m]),
         Zp::Var => Some((0..m).map(|i| a_val(2, seed << 8 | 200, i as u64)).collect()),
     };
+    // On a saturating kernel whose only restricted operand is B, an im2col B may have its
+    // padding cells materialised as the zero point, so the zero point is a B element too and
+    // must respect the reduced range.
+    let zfix = |v: i8| if im2col && red_b && !red_a { reduce_b(v) } else { v };
     let b_zero: Option<Vec<i8>> = match c.b_zero {
         Zp::None => None,
-        Zp::Const(v) => Some(vec![v as i8; n]),
+        Zp::Const(v) => Some(vec![zfix(v as i8); n]),
         // documented: with im2col input the zero point is the same for every column
-        Zp::Var if im2col => Some(vec![b_val(3, seed << 8 | 201, 0); n]),
+        Zp::Var if im2col => Some(vec![zfix(b_val(3, seed << 8 | 201, 0)); n]),
         Zp::Var => Some((0..n).map(|j| b_val(3, seed << 8 | 201, j as u64)).collect()),
     };
     let bias_row: Vec<i32> = (0..n).map(|j| (mix(seed << 8 | 101, j as u64) % 2_000_001) as i32 - 1_000_000).collect();
@@ -319,34 +323,54 @@ fn oracle_k(c: &Case, ks: &[(String, GemmExecutor<u8, i8, i32>)]) -> Verdict {
 
     let za: Vec<i64> = a_zero.as_ref().map(|z| z.iter().map(|&v| v as i64).collect()).unwrap_or(vec![0; m]);
     let zb: Vec<i64> = b_zero.as_ref().map(|z| z.iter().map(|&v| v as i64).collect()).unwrap_or(vec![0; n]);
+    // Padding cells of the im2col virtual matrix: rten-gemm does not document their value.
+    // Up to HEAD de151e4 every kernel packs the raw value 0 (contribution (0 - zb)); the
+    // operator-level fix proposed by the C15 check packs the zero point instead
+    // (contribution 0, which is what ConvInteger needs). With a zero B zero point the two
+    // coincide; otherwise the whole output must equal one of the two definitions.
+    let mut pad_opts: Vec<i64> = vec![0];
+    if im2col && zb.first().copied().unwrap_or(0) != 0 {
+        pad_opts.push(zb[0]);
+    }
     let mut extreme = false;
     let mut first_bad: Option<String> = None;
-    for (j, mm) in members.iter().enumerate() {
-        let a = mm.a.dense(|x| x as i64);
-        let b = match &mm.b {
-            BOperand::Mat(s) => s.dense(|x| x as i64),
-            BOperand::Img(img, cv) => img.virtual_dense(cv, 0i64, |x| x as i64),
-        };
-        let a_max = if red_a { 127 } else { 255 };
-        let (b_min, b_max) = if red_b { (-64, 63) } else { (-128, 127) };
-        extreme |= a.iter().any(|&v| v == 0 || v == a_max) && b.iter().any(|&v| v == b_min || v == b_max);
-        let r = ref_matmul_i64(m, n, k, &a, &b, &za, &zb);
-        for i in 0..m {
-            for q in 0..n {
-                let idx = j * m * n + i * n + q;
-                let mut e = r[i * n + q];
-                if beta1 {
-                    e += c0[idx] as i64;
-                }
-                e += match c.bias {
-                    1 => bias_row[q] as i64,
-                    2 => bias_col[i] as i64,
-                    _ => 0,
-                };
-                if out[idx] as i64 != e && first_bad.is_none() {
-                    first_bad = Some(format!("batch member {j} out[{i},{q}] = {}, exact result {e}", out[idx]));
+    let mut pad_used = 0i64;
+    for &pad in &pad_opts {
+        first_bad = None;
+        for (j, mm) in members.iter().enumerate() {
+            let a = mm.a.dense(|x| x as i64);
+            let b = match &mm.b {
+                BOperand::Mat(s) => s.dense(|x| x as i64),
+                BOperand::Img(img, cv) => img.virtual_dense(cv, pad, |x| x as i64),
+            };
+            let a_max = if red_a { 127 } else { 255 };
+            let (b_min, b_max) = if red_b { (-64, 63) } else { (-128, 127) };
+            extreme |= a.iter().any(|&v| v == 0 || v == a_max) && b.iter().any(|&v| v == b_min || v == b_max);
+            let r = ref_matmul_i64(m, n, k, &a, &b, &za, &zb);
+            for i in 0..m {
+                for q in 0..n {
+                    let idx = j * m * n + i * n + q;
+                    let mut e = r[i * n + q];
+                    if beta1 {
+                        e += c0[idx] as i64;
+                    }
+                    e += match c.bias {
+                        1 => bias_row[q] as i64,
+                        2 => bias_col[i] as i64,
+                        _ => 0,
+                    };
+                    if out[idx] as i64 != e && first_bad.is_none() {
+                        first_bad = Some(format!(
+                            "batch member {j} out[{i},{q}] = {}, exact result {e} (im2col padding cells = {pad})",
+                            out[idx]
+                        ));
+                    }
                 }
             }
+        }
+        if first_bad.is_none() {
+            pad_used = pad;
+            break;
         }
     }
     if let Some(what) = first_bad {
@@ -361,8 +385,14 @@ fn oracle_k(c: &Case, ks: &[(String, GemmExecutor<u8, i8, i32>)]) -> Verdict {
         // third known defect: padded rows of the im2col descriptor are summed into the
         // column sums of the packed panel (only visible with a non-zero A zero point)
         let mut spurious_any = false;
-        let mut all = simd;
-        if simd {
+        let mut all = false;
+        for &pad in &pad_opts {
+          if !simd || all {
+              break;
+          }
+          all = true;
+          spurious_any = false;
+          {
             'outer: for (j, mm) in members.iter().enumerate() {
                 let a = mm.a.dense(|x| x as i64);
                 let mut spurious = vec![0i64; n];
@@ -379,7 +409,7 @@ fn oracle_k(c: &Case, ks: &[(String, GemmExecutor<u8, i8, i32>)]) -> Verdict {
                                 }
                             }
                         }
-                        img.virtual_dense(cv, 0i64, |x| x as i64)
+                        img.virtual_dense(cv, pad, |x| x as i64)
                     }
                 };
                 // Σ (a - za)(b - zb) = Σ ab - zb Σa - za Σb + K za zb: the kernels use the true
@@ -405,6 +435,7 @@ fn oracle_k(c: &Case, ks: &[(String, GemmExecutor<u8, i8, i32>)]) -> Verdict {
                     }
                 }
             }
+          }
         }
         let sig = match (all, zp_name, spurious_any) {
             (true, Some(name), false) => format!("{name}:{kname}"),
@@ -437,6 +468,9 @@ fn oracle_k(c: &Case, ks: &[(String, GemmExecutor<u8, i8, i32>)]) -> Verdict {
     }
     if k > 1024 {
         labels.push("K>kc(1024)");
+    }
+    if pad_opts.len() > 1 {
+        labels.push(if pad_used == 0 { "im2col-padding-cells:raw-0" } else { "im2col-padding-cells:zero-point" });
     }
     if beta1 {
         labels.push("beta=1");
@@ -655,7 +689,8 @@ fn main() {
          Distinct = distinct Debug rendering.",
     );
     ck.assume("alpha = 1 and beta ∈ {0,1}: the integer kernels document/assert only these (generic kernel asserts; SIMD kernels treat beta as a flag)");
-    ck.assume("with im2col input every column has the same zero point (documented on GemmInputB::Im2Col); padding elements of the virtual matrix are the raw value 0");
+    ck.assume("with im2col input every column has the same zero point (documented on GemmInputB::Im2Col); padding cells of the virtual matrix are undocumented: the whole output must equal the exact result with padding cells = raw 0 (behaviour up to HEAD de151e4) or with padding cells = the B zero point (contribution 0, what ConvInteger needs; proposed operator-level fix)");
+    ck.assume("saturating kernel + only B restricted + im2col B: the B zero point is restricted to [-64,63] as well, because padding cells may be packed as the zero point");
     ck.assume("reduced-range contract taken from ReducedRangeRng docs: no saturation when every u8*i8*2 fits in i16; [0,127] or [-64,63] are the documented sufficient ranges");
     ck.assume("operator level (MatMulInteger, ConvInteger, DynamicQuantizeLinear) is covered elsewhere; this check stays at the rten-gemm API");
     ck.set_threads(8);
